@@ -1,5 +1,6 @@
 import Srctools.Wire
 import Srctools.Model.C10
+import Srctools.Model.C10Bytes
 import Srctools.Gen.Bsp
 /-! Driver for the C10 model (lazily parsed lump views + save) over the tables of `Gen.Bsp`.
 
@@ -88,6 +89,39 @@ def optLists (j : Json) (k : String) : Except String (Option (List (List Nat))) 
   | .ok v => do pure (some (← natLists v))
   | .error _ => pure none
 
+/-! byte layer: {"op":"layout","l4d2":b,"bsp":{…},"lzma":[[data,compressed]…]} → {"file":[byte…]}
+              {"op":"readfile","l4d2":b,"file":[byte…],"lzma":[…]} → {"bsp":{…},"looksL4D2":b}
+bsp = {"magic":n,"version":n,"revision":n,"lumps":[[version,[byte…],compressed]…64],"game":[[id,flags,version,[byte…]]…]} -/
+open C10.Bytes in
+def tableLzma (pairs : List (List Nat × List Nat)) : Lzma where
+  comp := fun b => match pairs.find? (fun p => p.1 == b) with | some p => p.2 | none => b
+  decomp := fun c => match pairs.find? (fun p => p.2 == c) with | some p => p.1 | none => c
+
+open C10.Bytes in
+def bspOfJson (j : Json) : Except String Bsp := do
+  let lumps ← (← (← j.getObjVal? "lumps").getArr?).toList.mapM fun l => do
+    let a ← l.getArr?
+    pure ({ version := ← (a[0]!).getNat?, data := ← Wire.natList (a[1]!), compressed := ← (a[2]!).getBool? } : Lump)
+  let game ← (← (← j.getObjVal? "game").getArr?).toList.mapM fun g => do
+    let a ← g.getArr?
+    pure ({ id := ← (a[0]!).getNat?, flags := ← (a[1]!).getNat?, version := ← (a[2]!).getNat?,
+            data := ← Wire.natList (a[3]!) } : GLump)
+  pure { magic := ← j.getObjValAs? Nat "magic", version := ← j.getObjValAs? Nat "version",
+         revision := ← j.getObjValAs? Nat "revision", lumps := lumps, game := game }
+
+open C10.Bytes in
+def bspToJson (x : Bsp) : Json :=
+  let n (k : Nat) := Json.num (JsonNumber.fromNat k)
+  Json.mkObj [("magic", n x.magic), ("version", n x.version), ("revision", n x.revision),
+    ("lumps", Json.arr (x.lumps.map fun l => Json.arr #[n l.version, Wire.ofNatList l.data, Json.bool l.compressed]).toArray),
+    ("game", Json.arr (x.game.map fun g => Json.arr #[n g.id, n g.flags, n g.version, Wire.ofNatList g.data]).toArray)]
+
+def lzmaOfJson (j : Json) : Except String C10.Bytes.Lzma := do
+  let ps ← (← (← j.getObjVal? "lzma").getArr?).toList.mapM fun p => do
+    let a ← p.getArr?
+    pure (← Wire.natList (a[0]!), ← Wire.natList (a[1]!))
+  pure (tableLzma ps)
+
 def handle (j : Json) : Except String Json := do
   let op ← j.getObjValAs? String "op"
   match op with
@@ -98,6 +132,17 @@ def handle (j : Json) : Except String Json := do
     let T := withDeps Gen.Bsp.tables (← optLists j "rd") (← optLists j "wd")
     let ops ← Wire.intList (← j.getObjVal? "ops")
     pure (Json.mkObj [("steps", Json.arr (runOps T ops).toArray)])
+  | "layout" =>
+    let Z ← lzmaOfJson j
+    let x ← bspOfJson (← j.getObjVal? "bsp")
+    let l4d2 ← j.getObjValAs? Bool "l4d2"
+    pure (Json.mkObj [("file", Wire.ofNatList (C10.Bytes.writeFile Z Gen.Bsp.tables.writeOrder l4d2 x))])
+  | "readfile" =>
+    let Z ← lzmaOfJson j
+    let f ← Wire.natList (← j.getObjVal? "file")
+    let l4d2 ← j.getObjValAs? Bool "l4d2"
+    pure (Json.mkObj [("bsp", bspToJson (C10.Bytes.readFile Z f l4d2)),
+                      ("looksL4D2", Json.bool (C10.Bytes.looksL4D2 f))])
   | _ => throw s!"unknown op {op}"
 
 def main : IO Unit := Wire.main handle
